@@ -11,6 +11,17 @@ import (
 	"pgregory.net/rapid"
 )
 
+// hasOrphans: some alive entity's relation target is dead.
+func hasOrphans(s *core.Sim) bool {
+	for i := range s.M.Ents {
+		e := &s.M.Ents[i]
+		if e.Alive && e.Target >= 0 && s.M.RelOf(e.Comps) >= 0 && !s.M.Ents[e.Target].Alive {
+			return true
+		}
+	}
+	return false
+}
+
 func TestC06(t *testing.T) {
 	mix := relMix()
 	mix[core.OpRemoveEnt] = 22
@@ -53,10 +64,18 @@ func TestC06(t *testing.T) {
 						}
 					}
 					return false
+				case core.CatBatchQuery:
+					// what the query of a batch call reports about orphans (entities whose target is dead)
+					return hasOrphans(s)
 				default:
 					return false
 				}
 				if s.TargetDied {
+					return true
+				}
+				if hasOrphans(s) {
+					// "still report the dead handle" holds for as long as the orphans live, whatever is
+					// done to them (also by calls that do not mention the relation)
 					return true
 				}
 				if len(s.DeadTargets) > 0 && len(s.Ops) > 0 {
